@@ -154,6 +154,30 @@ func c15ResEval(cs *core.Case) (bool, string, string) {
 			return false, "C15/result/ancestor-not-Is-own-String", p.String()
 		}
 	}
+	// the result and each of its ancestors answer Is for every alias registered
+	// for the format they stand for (and EqualsAny-style decorations of it)
+	if c15Nodes == nil {
+		c15Nodes = c15NodeList()
+	}
+	for x, lvl := d, 0; x != nil; x, lvl = x.Parent(), lvl+1 {
+		for _, nd := range c15Nodes {
+			if nd.Name != bare(x.String()) || nd.Ext != x.Extension() {
+				continue
+			}
+			for _, a := range nd.Aliases {
+				for _, dec := range []string{a, " " + strings.ToUpper(a) + "; q=1"} {
+					if !x.Is(dec) {
+						who := "result"
+						if lvl > 0 {
+							who = "ancestor"
+						}
+						return false, "C15/result/" + who + "-forgot-alias", fmt.Sprintf("input %s: %s %q (level %d of the chain %s) does not satisfy Is(%q), a registered alias of that format", core.Quote(cs.In), who, x.String(), lvl, chainStr(d), dec)
+					}
+				}
+			}
+			break
+		}
+	}
 	return true, "", ""
 }
 
